@@ -33,8 +33,8 @@ PROPS["C11"] = dict(
     coq_targets=["Determinism/Check.vo", "Determinism/Proofs.vo"],
     translators=[dict(driver="determinism", args=["callgraph"], out="Gen/CallGraph.v")],
     check_module="Determinism.Check",
-    check_fn="check_replicas",
-    case_type="rcase",
+    check_fn="check_static",        # default = the obligation stream; every replica stream overrides it (_REPLICA)
+    case_type="static_case",
     classify=_classify,
     shrink_key="Steps",
     streams=[
